@@ -11,6 +11,7 @@ Reads the SOURCE TEXT of bridgepoint/oal.py with `ast` (the module is not import
   unaryProd     effective precedence of `expression : unary_operator expression [%prec NAME]`
   unaryRow      the row of the name UNARY in `precedence`
   opLexemes     operator token -> lexeme: the literal of its `t_*` rule, or the keyword in lower case
+  kwIdent1 .. kwIdent4    the alternatives of kw_as_identifier_1 .. _4 (which keywords may be used as names)
   exprProds / stmtProds   every p_* production (lhs, rhs, %prec, body with p[i] written $i), split into the
                 expression sub-grammar and the statement grammar, sorted by (lhs, rhs) so that moving an
                 alternative between p_* functions with the same body is not a change of the grammar
@@ -29,8 +30,8 @@ EXPR_LHS = {
     'param_access', 'self_access', 'selected_access', 'invocation', 'implicit_invocation', 'function_invocation',
     'instance_invocation', 'parameter_list', 'parameter', 'unary_operator',
 }
-# the keyword-as-identifier alternatives are outside the modelled domain (names are ID tokens)
-SKIP_LHS = {'kw_as_identifier_1', 'kw_as_identifier_2', 'kw_as_identifier_3', 'kw_as_identifier_4'}
+# the four keyword-as-identifier classes: their alternatives are also emitted as lists of token kinds
+KW_CLASSES = ('kw_as_identifier_1', 'kw_as_identifier_2', 'kw_as_identifier_3', 'kw_as_identifier_4')
 KEYWORD_OPERATORS = ('AND', 'OR', 'NOT', 'EMPTY', 'NOT_EMPTY', 'CARDINALITY')
 ASSOCS = ('left', 'right', 'nonassoc')
 
@@ -236,13 +237,22 @@ def read(repo_dir):
             op_lex.append((tokname, tokname.lower()))
         else:
             raise Shape('operator token %s has neither a literal t_ rule nor is a keyword operator' % tokname)
+    kw_classes = []
+    for cname in KW_CLASSES:
+        alts = [p['rhs'] for p in prods if p['lhs'] == cname]
+        if not alts:
+            raise Shape('production %s not found' % cname)
+        for a in alts:
+            if len(a) != 1 or a[0] not in env['keywords']:
+                raise Shape('%s: alternative %r is not a single keyword token' % (cname, a))
+        kw_classes.append([a[0] for a in alts])
     return {
         'rows': rows, 'bin_ops': bin_ops, 'bin_prods': bin_prods, 'un_ops': un_ops,
         'unary_prod': prod_prec(unary), 'unary_prec_name': unary['prec'],
         'unary_row': level_of.get('UNARY'), 'op_lex': op_lex,
         'expr_prods': sorted((p for p in prods if p['lhs'] in EXPR_LHS), key=lambda p: (p['lhs'], p['rhs'])),
-        'stmt_prods': sorted((p for p in prods if p['lhs'] not in EXPR_LHS and p['lhs'] not in SKIP_LHS),
-                             key=lambda p: (p['lhs'], p['rhs'])),
+        'stmt_prods': sorted((p for p in prods if p['lhs'] not in EXPR_LHS), key=lambda p: (p['lhs'], p['rhs'])),
+        'kw_classes': kw_classes,
         'tokens': env['tokens'], 'keywords': env['keywords'],
     }
 
@@ -295,10 +305,14 @@ def generate(repo_dir):
     L.append('def opLexemes : List (Kind × String) := ' + _lean_list(
         ['(.%s, %s)' % (k, _lean_str(v)) for k, v in d['op_lex']]))
     L.append('')
+    for i, cls in enumerate(d['kw_classes']):
+        L.append('/-- alternatives of `kw_as_identifier_%d` -/' % (i + 1))
+        L.append('def kwIdent%d : List Kind := [%s]' % (i + 1, ', '.join('.' + k for k in cls)))
+    L.append('')
     L.append('/-- productions of the expression sub-grammar, sorted by (lhs, rhs) -/')
     L.append('def exprProds : List Prod := ' + _lean_list([_prod(p) for p in d['expr_prods']]))
     L.append('')
-    L.append('/-- productions of the statement grammar (keyword-as-identifier lists excluded), sorted by (lhs, rhs) -/')
+    L.append('/-- productions of the statement grammar (incl. the keyword-as-identifier lists), sorted by (lhs, rhs) -/')
     L.append('def stmtProds : List Prod := ' + _lean_list([_prod(p) for p in d['stmt_prods']]))
     L.append('')
     L.append('/-- the table the Lean parser and renderer are run with -/')
